@@ -81,7 +81,7 @@ Definition G_consume (prev : option arec) (new : list Z) (t u : Z) (uu : Z) (L :
   G_set TExtend new t u x (olive uu (G_del (sup_of prev new L) x o)).
 
 Lemma pspec_consume_tail s p prev new ttl rec :
-  DInv s -> NoDup new ->
+  DInv s -> (ttl <= 0 \/ NoDup new) ->
   let s4 := d_supersede s p prev new in
   let s5 := d_setaddrs s4 p new ttl TExtend in
   pspec s (d_store_signed s5 p rec) p
@@ -100,7 +100,10 @@ Proof.
       + change (zmem x []) with false. cbn iota. rewrite <- E. now rewrite olive_idem.
       + change (zmem x []) with false. cbn iota. reflexivity.
     - rewrite <- En in *. assert (Hne : new <> []) by (rewrite En; discriminate).
-      pose proof (pspec_setaddrs s4 p new ttl TExtend HD4 Hnd Hne) as PS. rewrite Hn4 in PS.
+      assert (PS : pspec s4 (d_setaddrs s4 p new ttl TExtend) p (G_set TExtend new ttl (unix (d_now s4 + ttl)))
+                         (vcert (unix (d_now s4)) (d_store s4) p)).
+      { destruct Hnd as [Ht|Hnd]; [now apply pspec_setaddrs_nonpos|now apply pspec_setaddrs]. }
+      rewrite Hn4 in PS.
       eexists. exact (pspec_trans s s4 _ p _ _ _ _ P4 PS). }
   destruct P5 as [c5 P5]. set (s5 := d_setaddrs s4 p new ttl TExtend) in *.
   pose proof (pspec_store_signed s5 p rec (ps_inv _ _ _ _ _ P5)) as P6.
@@ -123,7 +126,7 @@ Qed.
 Definition latest_of (C : option arec) : Z := match C with Some c => rseq c | None => 0 end.
 
 Lemma consume_ds_spec s p seq id addrs ttl :
-  DInv s -> NoDup (clean_addrs addrs) ->
+  DInv s -> (ttl <= 0 \/ NoDup (clean_addrs addrs)) ->
   let U := unix (d_now s) in
   let L := lents U (d_store s) p in
   let C := vcert U (d_store s) p in
